@@ -122,7 +122,7 @@ class QueueDriver:
         self.creq = False
         self.q.finish()
         out = []
-        for _ in range(10000):
+        for _ in range(100000):
             t = self.loop.create_task(self.q.__anext__())
             self.loop.quiesce()
             if not t.done():
@@ -152,14 +152,18 @@ def consts(tier, **kw):
     return c
 
 
-def gen_trace(rnd, length):
+def gen_trace(rnd, length, bulk=False):
+    """bulk: a producer far ahead of its consumer - thousands of elements initially or in one batch (nothing in the
+    property bounds the backlog)"""
     d = QueueDriver()
-    n0 = rnd.choice([0, 0, 1, 3])
+    n0 = rnd.choice([0, 1100, 2300]) if bulk else rnd.choice([0, 0, 1, 3])
     d.reset(dict(buf=tuple(range(n0))))
     tr = [dict(ev="Init", n=n0)]
     try:
         for _ in range(length):
             ch = [("Enqueue", (1,)), ("Enqueue", (2,)), ("Enqueue", (3,))]
+            if bulk and rnd.random() < 0.3:
+                ch += [("Enqueue", (700,)), ("Enqueue", (1500,))] * 3
             if rnd.random() < 0.12:
                 ch += [("Finish", ("stop",)), ("Finish", ("err",)), ("Finish", ("cancel",))]
             if d.task is None:
@@ -336,8 +340,8 @@ def run(rep, work, tier, seed):
     rnd = random.Random(seed)
     ntr, length = (400, 40) if tier == "quick" else (6000, 40)
     traces, badshape = [], []
-    for _ in range(ntr):
-        t = gen_trace(rnd, length)
+    for i in range(ntr + 4):
+        t = gen_trace(rnd, length, bulk=i >= ntr)      # the last four: backlogs of thousands of elements
         (traces if all(shape_ok(e) for e in t) else badshape).append(t)
     for t in badshape[:3]:
         bad = next(e for e in t if not shape_ok(e))
